@@ -36,7 +36,15 @@ func c14credential() *KeyCredential {
 	t1, t2 := vU64("lastlogon"), vU64("creation")
 	vAssume(t1 != 0 && t1 <= 0x7FFFFFFFFFFFFFFF)
 	vAssume(t2 != 0 && t2 <= 0x7FFFFFFFFFFFFFFF)
-	return NewKeyCredential(ver, id, c14material(), dev, utils.NewDateTime(t1), utils.NewDateTime(t2))
+	kc := NewKeyCredential(ver, id, c14material(), dev, utils.NewDateTime(t1), utils.NewDateTime(t2))
+	if vParam("source") == 1 {
+		// a credential whose key came from Azure AD: the constructor always says AD, so the field is assigned and the hash
+		// brought up to date, as a caller has to do
+		kc.Source = key.KeySource_AzureAD
+		kc.RawBytes, kc.KeyHash = nil, nil // drop the serialisation cached by the constructor: it describes the AD credential
+		kc.KeyHash = kc.ComputeKeyHash()
+	}
+	return kc
 }
 
 func H_C14_roundtrip() {
@@ -131,6 +139,26 @@ func H_C14_dn_with_binary() {
 		vCheck(vStrEq(p.DistinguishedName, dn), "dn/distinguished-name")
 		vCheck(vBytesEq(p.BinaryData, bin), "dn/binary-data")
 		vCheck(vStrEq(p.ToString(), s), "dn/re-serialise-identical")
+	}
+	vCover("end")
+}
+
+// Distinguished names with characters that mean something to a formatter or to the B:<n>:<hex>:<dn> syntax (concrete
+// samples; the blob stays symbolic)
+var c14dns = []string{"CN=100% legit,OU=Users,DC=example,DC=com", "CN=svc%d,DC=example,DC=com", "CN=trailing%", "CN=%%,DC=x", "CN=a:b:c,DC=x", "CN=B:2:ff:x", "CN=Jos\u00e9 \\, Jr.,DC=x", ""}
+
+func H_C14_dn_samples() {
+	bin := vBytes("bin", 2)
+	dn := c14dns[vParam("dn")]
+	d := &DNWithBinary{DistinguishedName: dn, BinaryData: bin}
+	for _, s := range []string{d.ToString(), d.String()} {
+		var p DNWithBinary
+		err := p.Parse([]byte(s))
+		vCheck(err == nil, "dn-samples/parse-of-own-output-ok")
+		if err == nil {
+			vCheck(vStrEq(p.DistinguishedName, dn), "dn-samples/distinguished-name")
+			vCheck(vBytesEq(p.BinaryData, bin), "dn-samples/binary-data")
+		}
 	}
 	vCover("end")
 }
